@@ -190,7 +190,7 @@ def run(rep):
                       'the error of parse_str is not turned into CreateModuleError::ParseError carrying that very error value', ok_detail='Err edge returns ParseError { error } built from the front end\'s error')
         if any(cname(t) == 'naga::valid::Validator::validate' for _, t in T.calls()):
             validator_levels.append((T, bs, st_, gs, succ))
-    rep.floor('crate-internal/validator calls dominated by a successful parse', n_gen, 10)
+    rep.floor('crate-internal/validator calls dominated by a successful parse', n_gen, 1)   # how many there are depends on how the generating function is factored
     # ---- 3/4: validation -----------------------------------------------------------------------------------------------------------------
     accessors0 = set()
     for n2, b2 in mir.bodies.items():
